@@ -494,6 +494,161 @@ def check_equivalent(ctx, out, desc, n1, n2, exact, rng):
     else:
         out.count('thevenin_load_agrees')
 
+# --------------------------------------------------------------------------- unit scales
+
+SCALES = [1e-12, 1e-9, 1e-6, 1e-3, 1e3, 1e6, 1e9, 1e12]
+
+def scale_branch(d, k):
+    """the branch with its impedance multiplied by k (admittance divided), voltage sources untouched,
+    current-source values divided by k — every voltage of the network stays what it was"""
+    kind, a = d['kind'], dict(d['args'])
+    if kind == 'resistor': a['R'] = a['R'] * k
+    elif kind == 'conductor': a['G'] = a['G'] / k
+    elif kind == 'impedance': a['Z'] = a['Z'] * k
+    elif kind == 'admittance': a['Y'] = a['Y'] / k
+    elif kind == 'load_v': a['P'] = a['P'] / k; a['Q'] = a['Q'] / k
+    elif kind == 'load_i': a['P'] = a['P'] * k; a['Q'] = a['Q'] * k
+    elif kind == 'vs_lossy': a['Z'] = a['Z'] * k
+    elif kind == 'cs_ideal': a['I'] = a['I'] / k
+    elif kind == 'cs_lossy': a['I'] = a['I'] / k; a['Y'] = a['Y'] / k
+    return dict(d, args=a)
+
+def scale_desc(desc, k, only_node=None):
+    return dict(desc, branches=[scale_branch(d, k) if only_node is None or only_node in (d['n1'], d['n2']) else d
+                                for d in desc['branches']])
+
+def equil_cond(A):
+    """condition number after symmetric diagonal equilibration (a few Ruiz steps): the accuracy of an LU
+    solve of a nodal system does not suffer from a mere change of units of some unknowns"""
+    A = np.array(A, dtype=complex)
+    if not A.size: return 1.0
+    try:
+        for _ in range(6):
+            r = np.sqrt(np.max(np.abs(A), axis=1)); c = np.sqrt(np.max(np.abs(A), axis=0))
+            r[r == 0] = 1; c[c == 0] = 1
+            A = A / r[:, None] / c[None, :]
+        v = float(np.linalg.cond(A))
+        return v if math.isfinite(v) else float('inf')
+    except Exception:
+        return float('inf')
+
+def rel_close(a, b, ref, tol):
+    a = complex(a); b = complex(b)
+    if not (cmath.isfinite(a) and cmath.isfinite(b)): return False
+    return abs(a - b) <= tol * max(abs(a), abs(b), ref)
+
+def check_scaled(ctx, out, desc, n1, n2, exact, scales=SCALES, only_node=None):
+    """unit scales: all impedances (or only those at `only_node`) multiplied by k.  Homogeneity: Z of the
+    scaled network is k × the exact Z of the unscaled one (all impedances scaled); mixed scales: compared with
+    the exact Spec value of the mixed network.  Purely relative comparison — nothing is absorbed by an
+    absolute floor — guarded by the condition number of the equilibrated system the implementation solved."""
+    from CircuitCalculator.Network.NodalAnalysis import node_analysis as na
+    drv = ctx.driver
+    if drv is None or n1 == n2 or has_self_loop(desc) or has_vs_loop(desc): return
+    facts = port_facts(desc, n1, n2)
+    if facts['floating_island']: return                      # open finding, reported by check_port
+    spec0 = drv.call('port_spec', net=gen_net.desc_to_json(desc), n1=n1, n2=n2)
+    if not spec0['defined']: return
+    z0 = core.cfloat(spec0['z'])
+    c0, zs0 = fallback_cond(desc, n1, n2)
+    if c0 is not None and not (c0 < 1e8): out.skip('ill_conditioned'); return
+    for k in scales:
+        out.evaluations += 1
+        d2 = scale_desc(desc, k, only_node)
+        try:
+            net = gen_net.to_impl(d2)
+        except Exception as e:
+            out.count('scaled_construct_error:' + tag(e)); continue
+        with InvSpy() as spy:
+            impl = run_impl(na.open_circuit_impedance, net, n1, n2)
+        if only_node is None:
+            want = k * z0; ref = k * zs0
+        else:
+            sp = drv.call('port_spec', net=gen_net.desc_to_json(d2), n1=n1, n2=n2)
+            if not sp['defined']: out.count('port_undefined'); continue
+            want = core.cfloat(sp['z']); ref = 0.0
+        if spy.args and not (equil_cond(spy.args[0]) < 1e8):
+            out.skip('ill_conditioned'); continue
+        if only_node is not None and spy.args and spy.rhs and spy.rhs[0] is not None:
+            try:      # scale of the unknowns of the system the implementation solved (an exact 0 is reported as rounding noise)
+                ref = float(np.max(np.abs(np.linalg.solve(spy.args[0], spy.rhs[0]))))
+                if not math.isfinite(ref): ref = 0.0
+            except Exception:
+                ref = 0.0
+        canon = dict(op='open_circuit_impedance', symptom='not_homogeneous' if only_node is None else 'wrong_value_at_extreme_scale',
+                     impedance_scale='small' if k < 1 else 'large', mixed=only_node is not None, **flags(facts))
+        case = dict(kind='scaled', desc=desc, n1=n1, n2=n2, exact=exact, k=k, only_node=only_node)
+        pretty = dict(net=gen_net.pretty(d2), port=[n1, n2], impedance_scale=k, scaled='all' if only_node is None else f'at node {only_node!r}')
+        out.nontrivial(('scaled', only_node is None, k, gen_net.shape(desc), facts['ideal_vs_elsewhere'], facts['zero_row_node']))
+        if impl[0] == 'err':
+            out.spec_fail(dict(canon, symptom='raises', exc=impl[1]),
+                          f'impedances ×{k:g}: open_circuit_impedance raises {impl[1]}, the port impedance is {want}', pretty,
+                          impl=dict(error=impl[1]), spec=dict(z=str(want)), case=case)
+        elif not rel_close(impl[1], want, ref, 1e-6):
+            out.spec_fail(canon, f'impedances ×{k:g}: open_circuit_impedance reports {impl[1]}, '
+                          + (f'k × the exact impedance of the unscaled network is {want}' if only_node is None else f'unit-current injection gives {want}'),
+                          pretty, impl=dict(z=impl[1]), spec=dict(z=str(want), z_unscaled=spec0['z']), case=case)
+        else:
+            out.count('scaled_agrees' if only_node is None else 'mixed_scale_agrees')
+
+def check_scaled_equivalent(ctx, out, desc, n1, n2, exact, es, scales=SCALES):
+    """unit scales for the equivalent sources: impedances × k, current sources ÷ k — the open-circuit voltage is
+    unchanged, the short-circuit current is divided by k (Thevenin U, Z·k; Norton I/k, Y/k)"""
+    from CircuitCalculator.Network.NodalAnalysis import node_analysis as na
+    from CircuitCalculator.Network.NodalAnalysis import bias_point_analysis as bpa
+    drv = ctx.driver
+    if drv is None or n1 == n2 or has_self_loop(desc) or has_vs_loop(desc): return
+    facts = port_facts(desc, n1, n2)
+    if facts['floating_island'] or facts['early']: return
+    jnet = gen_net.desc_to_json(desc)
+    wp = drv.call('wellposed', net=jnet)
+    if not wp['wellposed'] or n1 not in wp['pot'] or n2 not in wp['pot']: return
+    spec0 = drv.call('port_spec', net=jnet, n1=n1, n2=n2)
+    if not spec0['defined']: return
+    z0 = core.cfloat(spec0['z'])
+    voc = core.cfloat(wp['pot'][n1]) - core.cfloat(wp['pot'][n2])
+    vscale = max([abs(core.cfloat(v)) for v in wp['pot'].values()] + [1e-300])
+    if abs(z0) == 0: return
+    c0, zs0 = fallback_cond(desc, n1, n2)
+    if c0 is not None and not (c0 < 1e8): out.skip('ill_conditioned'); return
+    # natural voltage magnitude of the network (an exact 0 is reported as rounding noise of that size)
+    vsrc = [abs(complex(d['args']['V'])) for d in desc['branches'] if d['kind'] in ('vs_ideal', 'vs_lossy')]
+    isrc = [abs(complex(d['args']['I'])) for d in desc['branches'] if d['kind'] in ('cs_ideal', 'cs_lossy')]
+    vscale = max([vscale] + vsrc + [i * zs0 for i in isrc])
+    for k in scales:
+        out.evaluations += 1
+        d2 = scale_desc(desc, k)
+        try:
+            net = gen_net.to_impl(d2)
+            A = na.nodal_analysis_coefficient_matrix(net)
+        except Exception as e:
+            out.count('scaled_construct_error:' + tag(e)); continue
+        if not (equil_cond(A) < 1e7): out.skip('ill_conditioned'); continue
+        v = run_impl(bpa.open_circuit_voltage, net, n1, n2)
+        with InvSpy() as spy:
+            i = run_impl(bpa.short_circuit_current, net, n1, n2)
+        if spy.args and not (equil_cond(spy.args[0]) < 1e8): out.skip('ill_conditioned'); continue
+        canon = dict(op='equivalent_sources_scaled', impedance_scale='small' if k < 1 else 'large', **flags(facts))
+        case = dict(kind='scaled_equivalent', desc=desc, n1=n1, n2=n2, exact=exact, k=k)
+        pretty = dict(net=gen_net.pretty(d2), port=[n1, n2], impedance_scale=k)
+        out.nontrivial(('scaled_equivalent', k, gen_net.shape(desc)))
+        checks = [('open_circuit_voltage', v, voc, vscale), ('short_circuit_current', i, voc / z0 / k, vscale / abs(z0) / k)]
+        if es is not None:
+            def rec(cls, f):
+                return run_impl(lambda: getattr(cls(net, n1, n2), f))
+            checks += [('TheveninEquivalentSource.U', rec(es.TheveninEquivalentSource, 'U'), voc, vscale),
+                       ('TheveninEquivalentSource.Z', rec(es.TheveninEquivalentSource, 'Z'), k * z0, k * zs0),
+                       ('NortenEquivalentSource.I', rec(es.NortenEquivalentSource, 'I'), voc / z0 / k, vscale / abs(z0) / k),
+                       ('NortenEquivalentSource.Y', rec(es.NortenEquivalentSource, 'Y'), 1 / (k * z0), 0.0)]
+        bad = False
+        for name, got, want, ref in checks:
+            if got[0] == 'err' or not rel_close(got[1], want, ref, 1e-6):
+                out.spec_fail(dict(canon, quantity=name, symptom='raises' if got[0] == 'err' else 'wrong_value'),
+                              f'impedances ×{k:g}, current sources ÷{k:g}: {name} is {got[1]}, expected {want}', pretty,
+                              impl=dict(value=got), spec=dict(value=str(want)), case=case)
+                bad = True; break
+        if not bad: out.count('scaled_equivalent_agrees')
+
 # --------------------------------------------------------------------------- equivalent_sources
 
 def check_equivalent_sources_module(ctx, out):
@@ -797,6 +952,10 @@ def gen_floating(rng, desc):
     return dict(branches=br, zero=desc['zero'])
 
 CORPUS = [
+    # unit scales: 1 GΩ / 1 GΩ divider fed through 50 Ω — Z(mid, 0) = 0.5 GΩ (+25 Ω)
+    dict(zero='0', branches=[dict(n1='in', n2='0', id='Rs', kind='resistor', args=dict(R=50.0)),
+                             dict(n1='in', n2='mid', id='R1', kind='resistor', args=dict(R=1e9)),
+                             dict(n1='mid', n2='0', id='R2', kind='resistor', args=dict(R=1e9))]),
     # DESIGN §6: ideal source away from the port is treated as open (10 Ω instead of 5 Ω)
     dict(zero='0', branches=[dict(n1='1', n2='0', id='Vs', kind='vs_ideal', args=dict(V=10.0)),
                              dict(n1='1', n2='2', id='R1', kind='resistor', args=dict(R=10.0)),
@@ -822,6 +981,8 @@ def all_pairs(desc, rng=None, cap=None):
         pairs = rng.sample(pairs, cap)
     return pairs
 
+ES = [None]      # the equivalent_sources module once it imports
+
 def run_network(ctx, out, desc, exact, rng, pair_cap, full):
     pairs = all_pairs(desc, rng, pair_cap)
     for (a, b) in pairs:
@@ -838,6 +999,10 @@ def run_network(ctx, out, desc, exact, rng, pair_cap, full):
         check_port(ctx, out, rest, d['n1'], d['n2'], exact, op='element_impedance', removed=d['id'], full_desc=desc)
     if pairs:
         a, b = pairs[0]
+        ks = SCALES if full else rng.sample(SCALES, 4)
+        check_scaled(ctx, out, desc, a, b, exact, ks)
+        check_scaled(ctx, out, desc, a, b, exact, rng.sample([1e-13, 1e-11, 1e-10, 1e-9, 1e9, 1e10, 1e11, 1e13], 2), only_node=a)
+        check_scaled_equivalent(ctx, out, desc, a, b, exact, ES[0], rng.sample(SCALES, 2 if not full else 4))
         check_metamorphic(ctx, out, desc, a, b, exact)
         check_equivalent(ctx, out, desc, a, b, exact, rng)
         if len(pairs) > 1:
@@ -850,6 +1015,7 @@ def run(ctx, out):
                 'A case is non-trivial when the Spec port impedance is defined (probe network solvable, port voltage unique); '
                 'distinct by (node count, branch count, kind multiset, early-return, ideal-VS-elsewhere, zero-row-node, operation)')
     es = check_equivalent_sources_module(ctx, out)
+    ES[0] = es
     check_closed_forms(ctx, out)
     for desc in CORPUS:
         run_network(ctx, out, desc, True, ctx.rng('corpus'), None, True)
@@ -911,6 +1077,11 @@ def replay(ctx, out, rp):
         else:
             check_port(ctx, out, desc, case['n1'], case['n2'], case.get('exact', True))
             check_metamorphic(ctx, out, desc, case['n1'], case['n2'], case.get('exact', True))
+    elif k == 'scaled':
+        check_scaled(ctx, out, case['desc'], case['n1'], case['n2'], case.get('exact', True), [case['k']], only_node=case.get('only_node'))
+    elif k == 'scaled_equivalent':
+        ES[0] = check_equivalent_sources_module(ctx, out)
+        check_scaled_equivalent(ctx, out, case['desc'], case['n1'], case['n2'], case.get('exact', True), ES[0], [case['k']])
     elif k == 'equivalent':
         check_equivalent(ctx, out, case['desc'], case['n1'], case['n2'], case.get('exact', True), ctx.rng('replay'))
     elif k == 'circuit':
